@@ -25,7 +25,8 @@ EXPLANATION = (
     "execute(update/insert/delete)) reaches a commit point on every path to the method's end (accepted idiom: `add_all(A); if A or ...: commit()` -- nothing was "
     "added on the false edge), because rows left pending are discarded by the rollback of a later, unrelated retried call; "
     "C22.6 no @db_retry method is entered (directly or through a helper) while its caller has uncommitted session writes, unless db_retry.wrapper lets nested calls pass through "
-    "to the outermost retry (re-entrancy guard: marker tested first, set before the loop, cleared in finally)."
+    "to the outermost retry (re-entrancy guard: marker tested first, set before the loop, cleared in finally); C22.7 record_call_node is not one transaction (known finding C22.1) and "
+    "_get_call_node tells an interrupted recording by its empty CallSubtreeTask set, so every CallSubtreeTask add must follow the last intermediate commit point of the writer."
 )
 
 DB = "redun/backends/db/__init__.py"
@@ -309,6 +310,12 @@ def run(ctx):
                     )
         if not found_any:
             r6.good(f"{db.rel}:RedunBackendDb.{name}:no-nested-retry")
+
+    # ---- C22.7 completion markers ----
+    r7 = ctx.rule("C22.7", "rows that readers take as `recording finished` are written in the writer's final transaction", floor=1)
+    from .C03 import marker_rows_in_final_transaction
+
+    marker_rows_in_final_transaction(r7, repo)
 
     # ---- C22.3 the wrapper ----
     r3 = ctx.rule("C22.3", "db_retry: rollback before retry, bare raise when exhausted, loop re-invokes", floor=3)
